@@ -205,7 +205,24 @@ def _alarm(signum, frame):
 
 
 def execute(engine, program, focus=None, watchdog_s=120, keep_log=False):
-    """Execute `program` on `engine`; returns the result dict (never raises Violation)."""
+    """Execute `program` on `engine`; returns the result dict (never raises Violation).
+
+    A *session* program ({'session': True, 'ops': [sub-program, ...]}) replays what one worker
+    process did: the sub-programs are executed one after the other in this process (with the
+    engine's cleanup in between, exactly like the batch worker), and only the last one is judged.
+    It exists for violations that depend on state the library keeps at module / class level across
+    otherwise independent runs."""
+    if program.get('session'):
+        subs = program.get('ops', [])
+        for sub in subs[:-1]:
+            _execute_one(engine, sub, None, watchdog_s, False)
+        if not subs:
+            return Ctx().result() | {'harness_error': None}
+        return _execute_one(engine, subs[-1], focus, watchdog_s, keep_log)
+    return _execute_one(engine, program, focus, watchdog_s, keep_log)
+
+
+def _execute_one(engine, program, focus, watchdog_s, keep_log):
     ctx = Ctx(focus=focus)
     ctx.log.add('program', engine=program.get('engine'), n_ops=len(program.get('ops', [])))
     old = signal.signal(signal.SIGALRM, _alarm)
@@ -267,7 +284,7 @@ def match_known(viol, findings):
 # ----------------------------------------------------------------------------
 
 def minimise(engine, program, target, findings, focus, max_exec=200, max_s=120,
-             watchdog_s=60):
+             watchdog_s=60, runner=None):
     """target = (property, clause, known_id or None).  Accept a candidate only if a
     violation with the same property, clause and known-finding status still occurs."""
     t0 = time.time()
@@ -277,8 +294,8 @@ def minimise(engine, program, target, findings, focus, max_exec=200, max_s=120,
         if nexec[0] >= max_exec or time.time() - t0 > max_s:
             return False
         nexec[0] += 1
-        r = execute(engine, p, focus=focus, watchdog_s=watchdog_s)
-        if r['harness_error']:
+        r = runner(p) if runner else execute(engine, p, focus=focus, watchdog_s=watchdog_s)
+        if r is None or r['harness_error']:
             return False
         for v in r['violations']:
             k = match_known(v, findings)
@@ -298,7 +315,7 @@ def minimise(engine, program, target, findings, focus, max_exec=200, max_s=120,
             if not cand_ops:
                 continue
             cand = dict(best, ops=cand_ops)
-            if hasattr(engine, 'repair'):
+            if hasattr(engine, 'repair') and not best.get('session'):
                 cand = engine.repair(cand)
                 if cand is None:
                     continue
@@ -314,7 +331,7 @@ def minimise(engine, program, target, findings, focus, max_exec=200, max_s=120,
         if nexec[0] >= max_exec or time.time() - t0 > max_s:
             break
     # engine specific simplification passes, to a fixed point
-    if hasattr(engine, 'simplify'):
+    if hasattr(engine, 'simplify') and not best.get('session'):
         progress = True
         while progress and nexec[0] < max_exec and time.time() - t0 <= max_s:
             progress = False
